@@ -688,7 +688,32 @@ def r15_13(ctx):
         ctx.undecided('R15.13', f.qual, 'pairing of (i, j) with (j, i)', f.node, 'neither a plain lookup nor a single sort')
 
 
+
+def r15_14(ctx):
+    """nonzeros_for_columns is the row query of the TRANSPOSED structure on every path: a row query of the structure itself answers it only
+    for structurally symmetric level patterns (wave 8: shortcut for square levels)."""
+    f = ctx.prog.maybe_func('pyiga.mlmatrix.MLStructure.nonzeros_for_columns')
+    if f is None:
+        ctx.undecided('R15.14', 'pyiga.mlmatrix.MLStructure.nonzeros_for_columns', 'definition', None, 'not found')
+        return
+    calls = [c for c in ast.walk(f.node) if isinstance(c, ast.Call) and isinstance(c.func, ast.Attribute) and c.func.attr == 'nonzeros_for_rows']
+    if not calls:
+        ctx.undecided('R15.14', f.qual, 'row query', f.node, 'not recognised')
+        return
+    for c in calls:
+        recv = resolve.expand(c.func.value, c)
+        t = src(recv).replace(' ', '')
+        if t == 'self':
+            conds = ' and '.join(('' if p_ else 'not ') + x for (x, p_, _n) in guards.path_conditions(c, stop=f.node))
+            ctx.violated('R15.14', f.qual, '%s (under %s)' % (src(c)[:60], conds[:80] or 'always'), c,
+                         'the column query is answered by the ROW query of the same structure: right only if every level pattern is structurally '
+                         'symmetric; for a square lower-bidiagonal level, columns [0] give [(0,0)] instead of [(0,0),(1,0)]')
+        else:
+            ctx.decide('R15.14', f.qual, src(c)[:70], True if 'transpose()' in t else None, c, 'row query of the transposed structure')
+
+
 def run(ctx):
+    r15_14(ctx)
     r15_12(ctx)
     r15_13(ctx)
     r15_11(ctx)
